@@ -714,6 +714,14 @@ impl Display for LinearModel {
         } else {
             "".to_string()
         };
+        // the grammar accepts no expression after `solve`
+        if matches!(self.optimization_type, OptimizationType::Satisfy) {
+            return write!(
+                f,
+                "{}\ns.t.\n{}{}",
+                self.optimization_type, constraints, domain
+            );
+        }
         write!(
             f,
             "{} {}\ns.t.\n{}{}",
